@@ -182,7 +182,23 @@ fn check_read(w: &World, text: &str, cx: &mut Ctx) -> R {
                 let proper = w.legal.iter().filter(|o| matches(m, **o, &t, false)).count();
                 if matches(m, xm, &t, false) {
                     if proper != 1 {
-                        return cx.fail("C20/san-reader/ambiguous-text-accepted".into(), format!("{:?} matches {} legal moves, read as {} at {}", text, proper, x, m.to_fen(true)));
+                        // a reader may let a written check / mate mark decide between the candidates (the mark is
+                        // a component of the text; ignoring it, as the library does, is equally allowed)
+                        let mark = text.chars().last().filter(|c| *c == '+' || *c == '#');
+                        let agrees = |o: MMove| -> bool {
+                            let mut a = m.clone();
+                            a.make(o);
+                            let check = a.in_check(a.stm);
+                            match mark {
+                                Some('#') => check && a.legal_moves().is_empty(),
+                                Some('+') => check,
+                                _ => false,
+                            }
+                        };
+                        let by_mark = w.legal.iter().filter(|o| matches(m, **o, &t, false) && agrees(**o)).count();
+                        if !(mark.is_some() && by_mark == 1 && agrees(xm)) {
+                            return cx.fail("C20/san-reader/ambiguous-text-accepted".into(), format!("{:?} matches {} legal moves, read as {} at {}", text, proper, x, m.to_fen(true)));
+                        }
                     }
                 } else {
                     // a tolerated reading (castling for a K-text): only when nothing matches properly and
